@@ -50,8 +50,9 @@ PROPS = {
         level_note="Trusted: harness/ref evaluator incl. its model of AllowMissingPathOnRemove, EnsurePathExistsOnAdd (clear domain only) and copy sizes; when an operation has two independent reasons to fail either classification is accepted.",
     ),
     "C12": dict(
-        pkg="c12", units=[rapid("TestProp", 10000, 150000), rapid("TestPropV5Def", 5000, 60000), rapid("TestPropLegacy", 5000, 60000)], assumptions=COMMON_ASSUME,
-        technique="property-based testing (rapid): copy-heavy generated sequences, limit drawn around a reference running total of canonical sizes; v5 option, v5 package default, staged legacy package",
+        pkg="c12", units=[rapid("TestProp", 10000, 150000), rapid("TestPropV5Def", 5000, 60000), rapid("TestPropLegacy", 5000, 60000),
+                          rapid("TestPropSpelled", 8000, 100000), rapid("TestPropSpelledLegacy", 5000, 60000)], assumptions=COMMON_ASSUME,
+        technique="property-based testing (rapid): copy-heavy generated sequences, limit drawn around a reference running total of canonical sizes, and - for inputs in any spelling - around totals measured in the outputs of the patch prefixes (metamorphic); v5 option, v5 package default, staged legacy package",
         level_text="Generated-input search: the reference keeps the running total of the canonical (output-spelling) sizes of copied values; limits are drawn at, just below and just above the totals; the library must fail with *AccumulatedCopySizeError exactly when the total exceeds the limit, return no document then, and never fail at limit 0. Run through ApplyOptions, the v5 package variable and the legacy package variable. Exploration only.",
         level_note="Trusted: harness/ref size model (len of canonical text for the EscapeHTML setting; a copied null counts 0..4 bytes and limits inside that interval are excluded). Inputs are spelled as the encoder spells them, as the property's quantifier states.",
     ),
@@ -149,6 +150,7 @@ PROPS = {
         units=[rapid("TestPropBytes", 5000, 60000, memlimit="6GiB"), rapid("TestPropStruct", 2500, 30000, memlimit="6GiB"),
                rapid("TestPropBytesLegacy", 4000, 40000, memlimit="6GiB"), rapid("TestPropStructLegacy", 3000, 30000, memlimit="6GiB"),
                plain("TestDeep", shards=dict(quick=4, thorough=16), timeout=dict(quick=900, thorough=3600)),
+               plain("TestTable", shards=dict(quick=8, thorough=16)),
                fuzz("FuzzV5", 120), fuzz("FuzzLegacy", 90)],
         exhaustive_units=[],
         assumptions=COMMON_ASSUME + ["a panic is observed by recover() around the library call only; a hang is nominated by a 30 s per-case wall-clock watchdog and only a confirmation under a CPU-time limit would be reported",
